@@ -11,6 +11,8 @@ import LianVerif.Drv.Cfg
 import LianVerif.Drv.Determinism
 import LianVerif.Drv.ReachDef
 import LianVerif.Drv.Events
+import LianVerif.Drv.Scope
+import LianVerif.Drv.Hoist
 
 open Lean LianVerif.Drv
 
@@ -26,6 +28,9 @@ def dispatch (j : Json) : Except String Json := do
   | "determinism" => LianVerif.Drv.Determinism.handle j
   | "worklist" | "reachdef" => LianVerif.Drv.ReachDef.handle j
   | "events" => LianVerif.Drv.Events.handle j
+  | "scopes" => LianVerif.Drv.Scope.handleScopes j
+  | "resolver" => LianVerif.Drv.Scope.handleResolver j
+  | "hoist" => LianVerif.Drv.Hoist.handle j
   | _ => throw s!"unknown model {m}"
 
 partial def loop (hin hout : IO.FS.Stream) : IO Unit := do
